@@ -3,6 +3,7 @@
 package pfcp
 
 import (
+	"fmt"
 	"github.com/wmnsk/go-pfcp/ie"
 	"github.com/wmnsk/go-pfcp/message"
 
@@ -67,7 +68,16 @@ func zzC09(depth int) {
 			a := nondetChoice("which", nreq)
 			o := &out[a]
 			// the timer callback names the transaction by its id: peer address and counter value
-			l.expire(TX, zzAddr(o.peer), l.s.txKeySeq(o.counter))
+			// ... and it can only expire if the code armed (or re-armed) it; for a retired request the
+			// expiry models a callback that was already on its way when the transaction ended
+			tx, ok := l.s.txTrans[fmt.Sprintf("%s-%d", zzAddr(o.peer), l.s.txKeySeq(o.counter))]
+			armed := ok && tx.timer != nil
+			if o.live {
+				zzAssert("C09.retry.timer-armed", armed)
+			}
+			if armed || !o.live {
+				l.expire(TX, zzAddr(o.peer), l.s.txKeySeq(o.counter))
+			}
 			after := l.effects()
 			zzAssert("C09.expiry.no-state-effect", after.sessions == before.sessions && after.calls == before.calls)
 			if !o.live {
